@@ -9,6 +9,8 @@
 import Rl.Editor
 import Rl.Lemmas.KillRing
 import Rl.Lemmas.KillRingSim
+import Rl.Lemmas.EditorKillAcc
+import Rl.Lemmas.EditorKillFlag
 open Rl Rl.KillRing
 
 /-! ### reachable rings -/
@@ -301,7 +303,7 @@ theorem C06_around_keeps_order (k : KillRing) (h : WF k) (hc : 0 < k.cap) (hkill
     have hb' : before.isEmpty = false := by cases before <;> simp_all
     have ha' : after.isEmpty = false := by cases after <;> simp_all
     have hnk : (!k.killing) = false := by rw [hkill]; rfl
-    simp only [hnk, Bool.false_eq_true, if_false, cutBytes_append, hb', ha', hk1]
+    simp only [hnk, Bool.false_eq_true, if_false, _root_.cutBytes_append, hb', ha', hk1]
     exact hk2
   · show ((k.slots.set k.index _).set k.index _)[k.index]? = _
     simp [hl, hs1', mergeSlot]
@@ -354,3 +356,177 @@ example : popSpec [tA, tB] 1 1 3 = [some (1, tA), some (1, tB), some (1, tA)] :=
 /-- the invariant is not trivially true: a ring whose index is out of range is excluded and does panic -/
 example : ({ slots := [tA], index := 0, yankIndex := 3, lastAction := .other, killing := false, cap := 5 } : KillRing).yank.toOption = none := by
   decide
+
+/-! ### the editor level: `execute` and the main loop's reset decision (`cmdStep` = `lib.rs:732-734` + `command::execute`,
+    `Rl/Lemmas/EditorKillAcc.lean`), for every editor state -/
+
+/-- **Kills accumulate through the editor, for every run of kill commands.**  Take ANY editor state whose
+    ring is within its invariant (capacity > 0) and ANY list `ms` of kill movements other than the two
+    character movements (C-k, C-u, C-w, M-d, vi `d`+motion, whole line, … with any counts), executed one
+    after the other by the main-loop step (reset decision, then `execute (Kill m)`) with nothing in
+    between.  If the run returns in `s'` then (1) the line is what the successive `LineBuffer::kill`s
+    leave and `ns` are all the notifications they sent, in order; (2) the text the ring's kill sequence
+    holds (`accOf`) is the fold of the reported deletions over what it held before: each forward deletion
+    goes behind, each backward deletion before, each `delete_around` (whole line / buffer with the cursor
+    inside) around the accumulated text — whatever the mix; (3) no kill command in the run reset the
+    sequence; and (4) if anything was killed, ONE `yank` on the resulting ring returns exactly that text
+    and records its byte length for a following yank-pop. -/
+theorem C06_editor_kill_run_accumulates (S : Segmenter) (U : UData) (cfg : EdCfg) (ms : List Movement)
+    (hms : ∀ m ∈ ms, (Cmd.kill m).shouldResetKillRing = false)
+    (s s' : Ed) (hw : WF s.ring) (hc : 0 < s.ring.cap)
+    (hrun : cmdSteps S U cfg (ms.map Cmd.kill) s = .ok ((), s')) :
+    ∃ ns, killsRun S U ms s.line = some (s'.line, ns) ∧
+      accOf s'.ring = (ns.foldl accNotif (s.ring.killing, accOf s.ring)).2 ∧
+      s'.ring.killing = (ns.foldl accNotif (s.ring.killing, accOf s.ring)).1 ∧
+      WF s'.ring ∧
+      (s'.ring.lastAction = .kill → ∃ k2, s'.ring.yank = .ok (k2, some (accOf s'.ring)) ∧
+        k2.lastAction = .yank (blen (accOf s'.ring))) := by
+  obtain ⟨ns, h1, hw', hc', ha⟩ := wp_ok (wp_cmdSteps_kills S U cfg ms s hms hw hc) hrun
+  refine ⟨ns, h1, ?_, ?_, hw', fun hk => ?_⟩
+  · rw [← ha]
+  · rw [← ha]
+  · obtain ⟨k2, hy, hl, _⟩ := yank_acc hw' (by omega) hk
+    exact ⟨k2, hy, hl⟩
+
+/-- **Kill, then yank, through `execute`.**  From any state whose ring is within its invariant (capacity > 0) and
+    whose last action is not a kill (the situation after any command that resets), a kill command that
+    returns and whose line-buffer operation reported the deletions `ns` leaves a ring of which one yank
+    returns exactly the fold of those deletions (from the empty text) — provided something was killed. -/
+theorem C06_editor_kill_then_yank (S : Segmenter) (U : UData) (cfg : EdCfg) (m : Movement)
+    (s s' : Ed) (st : Status) (hw : WF s.ring) (hc : 0 < s.ring.cap) (hla : s.ring.lastAction ≠ .kill)
+    (hrun : execute S U cfg (.kill m) s = .ok (st, s')) :
+    ∃ r ns, LB.kill S U m s.line = .ok (r, s'.line, ns) ∧
+      accOf s'.ring = (ns.foldl accNotif (s.ring.killing, [])).2 ∧
+      (s'.ring.lastAction = .kill → ∃ k2, s'.ring.yank = .ok (k2, some (accOf s'.ring))) := by
+  have h := wp_execute_kill' S U cfg m s
+    (fun _ s' => ∃ r ns, LB.kill S U m s.line = .ok (r, s'.line, ns) ∧ lbKill.go ns s.ring = .ok s'.ring)
+    (fun _ _ => True) trivial
+    (fun r l ns k s' ho hgo hl hr => ⟨⟨r, ns, by rw [hl]; exact ho, by rw [hr]; exact hgo⟩, trivial⟩)
+  obtain ⟨r, ns, ho, hgo⟩ := wp_ok h hrun
+  obtain ⟨k', hgo', hw', hc', ha⟩ := lbKill_go_acc ns hw hc
+  rw [hgo] at hgo'; cases hgo'
+  have h0 : accOf s.ring = [] := by simp [accOf, hla]
+  rw [h0] at ha
+  refine ⟨r, ns, ho, by rw [← ha], fun hk => ?_⟩
+  obtain ⟨k2, hy, _⟩ := yank_acc hw' (by omega) hk
+  exact ⟨k2, hy⟩
+
+/-- **Character deletions stay out of the ring — through `execute`, for every state.**  `Kill(ForwardChar n)`
+    (C-d, Delete, vi `x`) and `Kill(BackwardChar n)` (Backspace, C-h, vi `X`) executed in any state whose
+    ring is not in the middle of a kill notification (`killing = false`: true of every state between two
+    commands) leave the ring EXACTLY as it was — slots, indices, last action — whether the command
+    returns or exits. -/
+theorem C06_editor_char_delete (S : Segmenter) (U : UData) (cfg : EdCfg) (n : Nat) (s : Ed)
+    (hf : s.ring.killing = false) :
+    wp (execute S U cfg (.kill (.forwardChar n))) (fun _ s' => s'.ring = s.ring) (fun _ s' => s'.ring = s.ring) s ∧
+    wp (execute S U cfg (.kill (.backwardChar n))) (fun _ s' => s'.ring = s.ring) (fun _ s' => s'.ring = s.ring) s :=
+  ⟨wp_execute_charKill S U cfg _ (Or.inl ⟨n, rfl⟩) s hf, wp_execute_charKill S U cfg _ (Or.inr ⟨n, rfl⟩) s hf⟩
+
+/-- **Nothing but kills, copies and yanks touches what the ring stores — for every command sequence.**  Any list of
+    commands each of which is a character deletion or a command other than `Kill` / `Replace` / `ViYankTo` /
+    `Yank` / `YankPop` (motions, insertions, history, undo, case changes, transpositions, …), run through the
+    main-loop step from any state with `killing = false`, leaves slots, slot index, yank position, capacity
+    and the killing flag of the ring as they were, in every outcome (return or exit); only the last action may
+    have been reset to Other.  So no such sequence enters or extends a kill. -/
+theorem C06_editor_inert_run (S : Segmenter) (U : UData) (cfg : EdCfg) (cs : List Cmd)
+    (hcs : ∀ c ∈ cs, c.ringInert = true) (s : Ed) (hf : s.ring.killing = false) :
+    wp (cmdSteps S U cfg cs)
+      (fun _ s' => (s'.ring = s.ring ∨ s'.ring = s.ring.reset) ∧ s'.ring.slots = s.ring.slots ∧
+        s'.ring.index = s.ring.index ∧ s'.ring.yankIndex = s.ring.yankIndex)
+      (fun _ s' => (s'.ring = s.ring ∨ s'.ring = s.ring.reset) ∧ s'.ring.slots = s.ring.slots ∧
+        s'.ring.index = s.ring.index ∧ s'.ring.yankIndex = s.ring.yankIndex) s :=
+  wp_mono (wp_cmdSteps_inert S U cfg cs s hcs hf)
+    (fun _ _ h => ⟨h, h.fields.1, h.fields.2.1, h.fields.2.2.1⟩)
+    (fun _ _ h => ⟨h, h.fields.1, h.fields.2.1, h.fields.2.2.1⟩)
+
+/-- **A non-kill command ends the accumulation** (the reset decision, `keymap.rs:134-146`): after any command
+    that is reset for and does not use the ring — run through the main-loop step from any state (ring within
+    its invariant, capacity > 0, `killing = false`) — the next kill opens a slot of its own: the text a
+    following yank returns is the fold of THAT kill's deletions only, nothing of an earlier kill sequence. -/
+theorem C06_editor_nonkill_resets (S : Segmenter) (U : UData) (cfg : EdCfg) (c : Cmd)
+    (hc1 : c.ringInert = true) (hc2 : c.shouldResetKillRing = true) (s s1 : Ed) (st : Status)
+    (hf : s.ring.killing = false) (hrun : cmdStep S U cfg c s = .ok (st, s1)) :
+    s1.ring = s.ring.reset ∧ accOf s1.ring = [] := by
+  have h : wp (cmdStep S U cfg c) (fun _ s' => s'.ring = s.ring.reset) (fun _ _ => True) s := by
+    unfold cmdStep
+    rw [hc2]
+    show wp (do EM.modify (fun s => { s with ring := s.ring.reset }); execute S U cfg c) _ _ s
+    rw [wp_bind, wp_modify]
+    exact wp_mono (wp_execute_inert S U cfg c hc1 { s with ring := s.ring.reset } hf)
+      (fun _ _ h => h) (fun _ _ _ => trivial)
+  have hr := wp_ok h hrun
+  exact ⟨hr, by rw [hr]; simp [accOf, KillRing.reset]⟩
+
+/-- **Yank through `execute` hands over the most recent kill and records what a yank-pop has to replace**
+    (counted yank included).  For every editor state whose ring is within its invariant and non-empty, and
+    every count `n` and anchor: `execute (Yank n anchor)` takes the slot `t` at the yank position (during
+    or right after a kill sequence: exactly the accumulated text, see `C06_editor_kill_run_accumulates`),
+    and whether the paste returns or exits, the ring afterwards is the old ring with last action
+    `Yank (blen t * n)` — slots and indices untouched — so that the `yank_pop` that directly follows
+    asks the line to replace exactly the `blen t * n` bytes of the `n` copies by the slot one position
+    back, a text stored in the ring. -/
+theorem C06_editor_yank_then_pop_size (S : Segmenter) (U : UData) (cfg : EdCfg) (n : Nat) (a : Anchor)
+    (s : Ed) (hw : WF s.ring) (hne : s.ring.slots ≠ []) :
+    ∃ t, s.ring.slots[s.ring.yankIndex]? = some t ∧
+      (s.ring.lastAction = .kill → 0 < s.ring.cap → t = accOf s.ring) ∧
+      wp (execute S U cfg (.yank n a))
+        (fun _ s' => s'.ring = { s.ring with lastAction := .yank (blen t * n) } ∧
+          ∃ k3 prev, s'.ring.yankPop = .ok (k3, some (blen t * n, prev)) ∧ prev ∈ s.ring.slots)
+        (fun _ s' => s'.ring = { s.ring with lastAction := .yank (blen t * n) }) s := by
+  obtain ⟨t, ht, hwp⟩ := wp_execute_yank S U cfg n a s hw hne
+  refine ⟨t, ht, ?_, wp_mono hwp ?_ (fun _ _ h => h)⟩
+  · intro hk hc
+    obtain ⟨k2, hy, _⟩ := yank_acc hw hc hk
+    rcases yank_ok hw with ⟨h0, _⟩ | ⟨t', ht', hy'⟩
+    · exact absurd h0 hne
+    · rw [ht] at ht'; cases ht'
+      rw [hy] at hy'; cases hy'; rfl
+  · intro _ s' h
+    refine ⟨h, ?_⟩
+    have hw' : WF ({ s.ring with lastAction := .yank (blen t * n) } : KillRing) :=
+      ⟨hw.len_le, hw.idx_lt, hw.idx_zero, (fun hh => by cases hh), hw.yidx_lt, (fun hh => by cases hh)⟩
+    obtain ⟨prev, hp, hpop⟩ := yankPop_ok hw' (blen t * n) rfl hne
+    rw [h]
+    exact ⟨_, prev, hpop, List.mem_of_getElem? hp⟩
+
+/-! ### non-vacuity of the editor-level theorems -/
+
+/-- the movements of the kill commands satisfy the hypothesis of `C06_editor_kill_run_accumulates` -/
+example : ∀ m ∈ [Movement.endOfLine, .beginningOfLine, .backwardWord 2 .emacs, .wholeLine, .forwardWord 1 .afterEnd .emacs],
+    (Cmd.kill m).shouldResetKillRing = false := by decide
+
+/-- what the fold computes on the notifications of M-d ("cd"), M-DEL ("ab ") and C-k (" ef") on `ab |cd ef`:
+    everything removed, in its original left-to-right order -/
+example : ([Notif.startKill, .del 3 ['c', 'd'] .forward, .stopKill, .startKill, .del 0 ['a', 'b', ' '] .backward, .stopKill,
+    .startKill, .del 0 [' ', 'e', 'f'] .forward, .stopKill].foldl accNotif (false, [])) =
+    (false, ['a', 'b', ' ', 'c', 'd', ' ', 'e', 'f']) := by decide
+
+/-- a deletion reported outside `start_killing` / `stop_killing` (a character deletion) is ignored by the fold, and a
+    `delete_around` puts the accumulated text between its two parts -/
+example : ([Notif.del 0 ['x'] .forward, .startKill, .del 1 ['b'] .forward, .del 0 ['a', 'c'] (.around 1), .stopKill].foldl
+    accNotif (false, [])) = (false, ['a', 'b', 'c']) := by decide
+
+/-- commands covered by `C06_editor_inert_run` / `C06_editor_nonkill_resets` -/
+example : [Cmd.kill (.forwardChar 1), .kill (.backwardChar 3), .selfInsert 1 'a', .move (.backwardChar 1), .undo 1,
+    .transposeChars].all (fun c => c.ringInert && c.shouldResetKillRing) = true := by decide
+
+/-- **The ring is ready between any two commands** — the hypotheses of the editor-level theorems above are an
+    invariant.  Starting from any state whose ring is within its invariant, has capacity > 0 and is not in
+    the middle of a kill notification (`killing = false`; a fresh `KillRing::new(60)` is such a ring), every
+    run — through the main-loop step — of kill commands with ANY movement (every `LineBuffer::kill` closes
+    the `start_killing` bracket it opens, whatever it answers), character deletions and commands that do not
+    use the ring ends, whether it returns or exits, in a state with the same three facts; in particular no
+    such command panics in the ring and `killing` is down again after every command. -/
+theorem C06_editor_ring_ready_invariant (S : Segmenter) (U : UData) (cfg : EdCfg) (cs : List Cmd)
+    (hcs : ∀ c ∈ cs, c.killOrInert = true) (s : Ed)
+    (hw : WF s.ring) (hc : 0 < s.ring.cap) (hf : s.ring.killing = false) :
+    wp (cmdSteps S U cfg cs)
+      (fun _ s' => WF s'.ring ∧ 0 < s'.ring.cap ∧ s'.ring.killing = false)
+      (fun _ s' => WF s'.ring ∧ 0 < s'.ring.cap ∧ s'.ring.killing = false) s :=
+  wp_cmdSteps_ready S U cfg cs s hcs ⟨hw, hc, hf⟩
+
+/-- the hypotheses are satisfiable: a fresh ring, and a mixed command list -/
+example : WF (KillRing.new 60) ∧ 0 < (KillRing.new 60).cap ∧ (KillRing.new 60).killing = false :=
+  ⟨wf_new 60, by decide, rfl⟩
+example : [Cmd.kill .endOfLine, .kill (.forwardChar 1), .kill .wholeLine, .selfInsert 1 'a', .kill (.backwardWord 1 .emacs),
+    .move .endOfLine].all Cmd.killOrInert = true := by decide
